@@ -393,8 +393,9 @@ impl Execute for ast::Pipeline {
             wait_for_pipeline_processes_and_update_status(self, spawn_results, shell, &params)
                 .await?;
 
-        // Invert the exit code if requested.
-        if self.bang {
+        // Invert the exit code if requested; `exit` and `return` leave with the status they were
+        // given.
+        if self.bang && !result.is_return_or_exit() {
             result.exit_code = ExecutionExitCode::from(if result.is_success() { 1 } else { 0 });
         }
 
@@ -407,9 +408,17 @@ impl Execute for ast::Pipeline {
         // pipelines, etc.).
         if !result.is_success() && !params.suppress_errexit && !self.bang {
             if shell.traps().handles(crate::traps::TrapSignal::Err) {
-                shell
+                let handler_result = shell
                     .invoke_trap_handler(crate::traps::TrapSignal::Err, &params)
                     .await?;
+
+                // An `exit` in the handler ends the shell.
+                if matches!(
+                    handler_result.next_control_flow,
+                    crate::results::ExecutionControlFlow::ExitShell
+                ) {
+                    return Ok(handler_result);
+                }
             }
         }
 
